@@ -37,12 +37,15 @@ def run_execution(harness, params, prefix):
     s.lock_points = getattr(harness, "lock_points", True)
     s.free_cost = getattr(harness, "free_cost", 0)
     s.fair_stay_cost = getattr(harness, "fair_stay_cost", 0)
+    s.intra_cost = getattr(harness, "intra_cost", 1)
     pol = getattr(harness, "policy", None)
     if pol is not None:
         s.policy = pol(params)
     sched.ACTIVE = s
     if fp is not None:
         s.fingerprint = fp(params, s)
+    else:
+        s.fingerprint = _no_shared_state     # states = distinct vectors of thread positions (a body may install a richer one)
     obs = None
     try:
         try:
@@ -66,6 +69,10 @@ def run_execution(harness, params, prefix):
     ex.points, ex.now = s.points_in_window, s.now
     ex.cost = sum(costs[c] for (c, n, costs, label) in s.trace)
     return ex
+
+
+def _no_shared_state():
+    return 0
 
 
 def children(ex, bound, expand_limit=600):
